@@ -283,7 +283,14 @@ def run_memcheck(seed, timeout=1800):
 
 def run_fuzz(target, runs, seed, seeds=(), max_len=4080, nproc=None, timeout=3000):
     """Build and run a cargo-fuzz target (libFuzzer + ASan) in nproc parallel processes with a
-    bounded number of runs each. Returns dict(execs, crashes=[(signature, artifact hex, stderr tail)])."""
+    bounded number of runs each. Returns dict(execs, crashes=[(signature, artifact hex, stderr tail)],
+    inconclusive=[text]).
+
+    libFuzzer's RSS watchdog reads getrusage().ru_maxrss, which on Linux a child inherits across fork+exec from
+    its parent: launched from a check process that holds gigabytes of recorded cases it reported "out-of-memory"
+    on the empty input after a second (peak_rss 8266 MB on a target whose own peak is ~230 MB).  The RSS limit
+    is therefore off; a single oversized allocation is still caught by -malloc_limit_mb, and a watchdog report
+    with no panic, no ASan block and no malloc size is resource exhaustion of the run = inconclusive."""
     import re
     import shutil
     build.ensure_pkg()
@@ -300,7 +307,7 @@ def run_fuzz(target, runs, seed, seeds=(), max_len=4080, nproc=None, timeout=300
     binp = os.path.join(td, "x86_64-unknown-linux-gnu", "release", target)
     work = tempfile.mkdtemp(prefix="fuzz-", dir=os.path.join(build.CACHE, "stage"))
     build._stages.append(work)
-    out = {"execs": 0, "crashes": [], "processes": nproc}
+    out = {"execs": 0, "crashes": [], "processes": nproc, "inconclusive": []}
 
     def one(i):
         cdir, adir = os.path.join(work, "c%d" % i), os.path.join(work, "a%d" % i)
@@ -313,6 +320,7 @@ def run_fuzz(target, runs, seed, seeds=(), max_len=4080, nproc=None, timeout=300
         e["ASAN_OPTIONS"] = "detect_leaks=0"
         try:
             return i, subprocess.run([binp, cdir, "-runs=%d" % (runs // nproc), "-seed=%d" % (seed * 64 + i + 1), "-timeout=10",
+                                      "-rss_limit_mb=0", "-malloc_limit_mb=2048",
                                       "-max_len=%d" % max_len, "-artifact_prefix=" + adir + "/", "-print_final_stats=1"],
                                      stdout=subprocess.PIPE, stderr=subprocess.PIPE, timeout=timeout, env=e), adir
         except subprocess.TimeoutExpired:
@@ -321,6 +329,7 @@ def run_fuzz(target, runs, seed, seeds=(), max_len=4080, nproc=None, timeout=300
         if p is None:
             out.setdefault("timeouts", 0)
             out["timeouts"] += 1
+            out["inconclusive"].append("fuzz process %d of %s hit the wall-clock watchdog" % (i, target))
             continue
         se = p.stderr.decode(errors="replace")
         m = re.search(r"stat::number_of_executed_units:\s*(\d+)", se)
@@ -330,6 +339,11 @@ def run_fuzz(target, runs, seed, seeds=(), max_len=4080, nproc=None, timeout=300
             art = open(arts[0], "rb").read().hex() if arts else ""
             loc = re.search(r"panicked at (/repo/[\w/.]+:\d+)", se)
             asan = asan_reports(se)
+            if not loc and not asan and "panicked at" not in se and (
+                    ("libFuzzer: out-of-memory" in se and "malloc(" not in se) or p.returncode in (-9, 137)):
+                out["inconclusive"].append("fuzz process %d of %s ran out of memory / was killed (rc=%s): %s"
+                                           % (i, target, p.returncode, se[-200:].replace("\n", " | ")))
+                continue
             sig = ("panic:" + loc.group(1).replace("/repo/", "")) if loc else (("asan:%s:%s" % asan[0]) if asan else "crash")
             out["crashes"].append((sig, art, se[-1500:]))
     shutil.rmtree(work, ignore_errors=True)
